@@ -183,9 +183,21 @@ Section SimDefs.
     | _ => True
     end.
 
+  (* subscript items: integer constants are pushed as strings, so the VM holds
+     pairwise-equivalent values *)
+  Definition SimItems (n : nat) : Prop :=
+    forall es m C p stk, code_at C p (comp_index_items es) ->
+    match eval_exprs P FN n es m with
+    | ENormal vs m' =>
+        exists vs', Forall2 (keq P) vs vs' /\ zlen vs = exprs_len es /\
+          reaches C p stk m (p + csize (comp_index_items es)) (rev vs' ++ stk) m'
+    | EAbort x m' => stops C p stk m (VAbort x m')
+    | _ => True
+    end.
+
   Definition Sim (n : nat) : Prop :=
     SimExpr n /\ SimExprs n /\ SimArgs n /\ SimIndex n /\ SimLref n /\ SimCond n /\ SimCat n /\
-    SimStmt n /\ SimStmts n /\ SimLoop n /\ SimLoopTop n.
+    SimStmt n /\ SimStmts n /\ SimLoop n /\ SimLoopTop n /\ SimItems n.
 
 End SimDefs.
 
@@ -206,4 +218,5 @@ Arguments SimStmt {value St err}.
 Arguments SimStmts {value St err}.
 Arguments SimLoop {value St err}.
 Arguments SimLoopTop {value St err}.
+Arguments SimItems {value St err}.
 Arguments Sim {value St err}.
